@@ -21,7 +21,7 @@ PROPS = {"C09": dict(
           "One evaluation = one submission. Non-trivial = a chain that must be accepted, has >= 1 intermediate or a precertificate signing "
           "certificate and a NotAfter on a boundary position (not 'middle'), or a chain that must be rejected for exactly one reason; "
           "distinct = hash of the canonical submission descriptor (window, root, accepted?, path shape, serial, NotAfter position, EKU, type, "
-          "endpoint, defect with its parameters); also: re-keyed twin roots in reloads; JSON bodies with trailing data; refused issuer uploads during a batch; a handler panic is judged as an answer"),
+          "endpoint, defect with its parameters); also: re-keyed twin roots in reloads; JSON bodies with trailing data; refused issuer uploads during a batch; a handler panic is judged as an answer; failed _roots.pem upload followed by a retry; resubmission through another valid chain (cross-certificate, precertificate signing certificate toggled)"),
     assumptions=[
         "validity is known by construction of the CA forest; the linking part of that knowledge is cross-checked against crypto/x509.Verify "
         "on every chain whose validity periods overlap",
